@@ -6,6 +6,11 @@ import GraphiqModel.Proofs.CanonUnique
 import GraphiqModel.Proofs.CanonCheck
 import GraphiqModel.Proofs.InnerProductTotal
 import GraphiqModel.Proofs.InnerProductExec
+import GraphiqModel.Proofs.InnerProductFull
+import GraphiqModel.Proofs.InnerProductHilbert
+import GraphiqModel.Proofs.InvHilbert
+import GraphiqModel.Proofs.InvValid
+import GraphiqModel.Proofs.InnerProductCount
 namespace Graphiq.C05
 open Graphiq Graphiq.PRow Graphiq.STab Graphiq.Tab
 
@@ -84,6 +89,18 @@ theorem sign_matters : ¬ (STab.zero 1).Spn (PRow.Zq 0 true) := by
 theorem canonical_form_returns_canon (t c : STab) (h : t.canonicalForm = .ok c) : STab.Canon c :=
   canonicalForm_canon t c h
 
+/-- **`canonical_form` returns exactly on the independent generating sets** (every n, real commuting rows): its final
+    `assert pivot[0] == n` passes iff no non-empty subset of the generators multiplies to `±I` (`STab.Indep`; equivalently
+    the 2n-bit vectors are linearly independent over GF(2), `C11.independent_iff_linear_independent`), and the only error it
+    can raise is that `AssertionError`. -/
+theorem canonical_form_returns_iff_independent (t : STab) (hg : t.Good) :
+    ((∃ c, t.canonicalForm = .ok c) ↔ t.Indep) ∧ ∀ e, t.canonicalForm = .error e → e = .assertion := by
+  refine ⟨canonicalForm_returns_iff t hg, fun e h => ?_⟩
+  unfold STab.canonicalForm at h
+  split at h
+  · cases h
+  · injection h with h; exact h.symm
+
 /-- **Uniqueness of the shape** (every n): two real commuting tableaux in `Canon` shape that generate the same signed
     group are equal row by row — Pauli strings *and* sign bits (uniqueness of the reduced row echelon form over the
     2n-bit symplectic vectors with the pivot order of `canonical_form`; a sign is determined by its Pauli string because
@@ -102,9 +119,9 @@ theorem shape_checker_sound (c : STab) (h : c.isCanon = true) : STab.Canon c := 
     it never reports two equal states different).  Proved below as `canonical_form_is_normal_form`; it is pure Gaussian
     elimination and does not depend on `inverse_circuit`.
 
-    The second half of C05, the value of the overlap, is proved further below (`inner_product_zero_iff_partial`,
-    `inner_product_exponent_partial`, …) under the hypothesis that `inverse_circuit` reached |0…0⟩ on the first argument;
-    without that hypothesis it is false on the current code (C11 `synthesis_incomplete`, D42). -/
+    The second half of C05, the value of the overlap, is proved further below (`inner_product_zero_iff`,
+    `inner_product_exponent`, …), unconditionally since `inverse_circuit` is proved to reach |0…0⟩
+    (`C11.inverse_circuit_ends_in_zero`; D42 repaired in graphiq 74abae4). -/
 def canonical_form_is_normal_form_statement : Prop :=
   ∀ (a b ca cb : STab), a.Good → b.Good → (a.n = b.n ∧ ∀ p, a.Spn p ↔ b.Spn p) →
     a.canonicalForm = .ok ca → b.canonicalForm = .ok cb → SameRows ca cb
@@ -139,10 +156,11 @@ theorem equality_exact (a b ca cb : STab) (ha : a.Good) (hb : b.Good)
   mathematics (Aaronson–Gottesman 2004; Garcia–Markov–Cross 2012) and is cited, **not** proved here.
 
   The model `STab.innerProduct a b` returns `ok none` for the value `0` and `ok (some e)` for the value `2^{-e/2}`
-  (fidelity `2^{-e}`).  Every theorem below carries the hypothesis `hzero`: the tableau `s1` that `inverse_circuit`
-  returns for the first argument is the tableau of |0…0⟩.  It cannot be dropped: `C11.synthesis_incomplete` (finding D42)
-  exhibits a state on which it fails, and `fidelity_self_statement_false` below shows that the fidelity of that state with
-  itself is then reported as 1/2.  The correspondence harness evaluates `hzero` on every input. -/
+  (fidelity `2^{-e}`).  The theorems below are **unconditional** (every n, every pair of real commuting generating sets,
+  every destabilizer half): the former hypothesis `hzero` — the tableau `s1` that `inverse_circuit` returns for the
+  first argument is the tableau of |0…0⟩ — is a theorem since the repair of D42 in graphiq 74abae4
+  (`C11.inverse_circuit_ends_in_zero`, Proofs/InvBridge.lean).  The conditional forms are kept with the suffix `_of_zero`;
+  the correspondence harness still evaluates `isZero` on every input as a regression. -/
 
 /-- `x = ok v`, from a Boolean evaluation (there is no `DecidableEq (Except _ _)`) -/
 theorem ok_of_check (x : Except Err (Option Nat)) (v : Option Nat)
@@ -151,119 +169,196 @@ theorem ok_of_check (x : Except Err (Option Nat)) (v : Option Nat)
   | error e => simp at h
   | ok r => simp at h; rw [h]
 
-/-- full statement (kept visible, **not provable on the current code** — its siblings below are refuted by D42):
-    the reported value is 0 exactly when the groups contain a Pauli with opposite signs -/
+/-- the statement as it was kept while D42 was open: the reported value is 0 exactly when the groups contain a Pauli with
+    opposite signs -/
 def inner_product_zero_iff_statement : Prop :=
   ∀ (a b : Tab) (r : Option Nat), (STab.ofTab a).Good → (STab.ofTab b).Good → STab.innerProduct a b = .ok r →
     (r = none ↔ Orth (STab.ofTab a) (STab.ofTab b))
 
-/-- **Zero overlap is exact** (every n, every pair of generating sets, every destabilizer half; partial: under `hzero`).
-    If the synthesis of the first state reached |0…0⟩, `inner_product` reports 0 **iff** the two signed groups contain a
-    Pauli `P` and its negative `−P` — which is when ⟨a|b⟩ = 0.
-    Missing for `inner_product_zero_iff_statement`: that `inverse_circuit` always reaches |0…0⟩, which is false (D42,
-    `C11.synthesis_incomplete`). -/
-theorem inner_product_zero_iff_partial (a b : Tab) (s1 : STab) (circ : List Gate) (r : Option Nat)
+/-- **Zero overlap is exact** (every n, every pair of generating sets, every destabilizer half): `inner_product` reports 0
+    **iff** the two signed groups contain a Pauli `P` and its negative `−P` — which is when ⟨a|b⟩ = 0. -/
+theorem inner_product_zero_iff : inner_product_zero_iff_statement :=
+  fun a b r ga gb h => innerProduct_none_iff_full a b r ga gb h
+
+/-- conditional form (hypothesis `hzero` explicit), as proved before the repair of D42 -/
+theorem inner_product_zero_iff_of_zero (a b : Tab) (s1 : STab) (circ : List Gate) (r : Option Nat)
     (ga : (STab.ofTab a).Good) (gb : (STab.ofTab b).Good)
     (hs : (STab.ofTab a).inverseCircuit = .ok (s1, circ)) (hzero : s1.isZero = true)
     (h : STab.innerProduct a b = .ok r) :
     r = none ↔ Orth (STab.ofTab a) (STab.ofTab b) :=
   innerProduct_none_iff a b s1 circ r ga gb hs hzero h
 
-/-- full statement (kept visible, **false on the current code**, see `fidelity_self_statement_false`): a non-zero value
-    `2^{-e/2}` has `e = n − dim(A ∩ B)` -/
+/-- a non-zero value `2^{-e/2}` has `e = n − dim(A ∩ B)` -/
 def inner_product_exponent_statement : Prop :=
   ∀ (a b : Tab) (e : Nat), (STab.ofTab a).Good → (STab.ofTab b).Good → STab.innerProduct a b = .ok (some e) →
     e ≤ a.n ∧ ¬ Orth (STab.ofTab a) (STab.ofTab b) ∧ OverlapDim (STab.ofTab a) (STab.ofTab b) (a.n - e)
 
-/-- **The non-zero overlap is exact** (every n; partial: under `hzero`).  If `inner_product` reports `2^{-e/2}` then
-    `e ≤ n`, the groups are not orthogonal, and the common subgroup `A ∩ B` has an independent generating set of exactly
-    `n − e` elements: `e = n − dim(A ∩ B)`, i.e. fidelity `2^{-(n - dim(A ∩ B))}`.  Moreover `e` is what the code counts:
-    in the canonical form `s2` of the transformed second state exactly the rows `i < e` carry an x-bit, and the `n − e`
-    x-free rows `e..n-1` all have the sign `+`.
-    Missing for `inner_product_exponent_statement`: `inverse_circuit` always reaches |0…0⟩ (false, D42). -/
-theorem inner_product_exponent_partial (a b : Tab) (s1 : STab) (circ : List Gate) (e : Nat)
-    (ga : (STab.ofTab a).Good) (gb : (STab.ofTab b).Good)
-    (hs : (STab.ofTab a).inverseCircuit = .ok (s1, circ)) (hzero : s1.isZero = true)
+/-- **The non-zero overlap is exact** (every n).  If `inner_product` reports `2^{-e/2}` then `e ≤ n`, the groups are not
+    orthogonal, and the common subgroup `A ∩ B` has an independent generating set of exactly `n − e` elements:
+    `e = n − dim(A ∩ B)`, i.e. fidelity `2^{-(n - dim(A ∩ B))}` (`dim` is well defined: `overlap_dim_unique`). -/
+theorem inner_product_exponent : inner_product_exponent_statement := by
+  intro a b e ga gb h
+  obtain ⟨h1, h2, h3, _⟩ := innerProduct_some_full a b (some e) ga gb h e rfl
+  exact ⟨h1, h2, h3⟩
+
+/-- … moreover `e` is what the code counts: in the canonical form `s2` of the second state transformed by the gate list
+    `circ` synthesised for the first, exactly the rows `i < e` carry an x-bit, and the `n − e` x-free rows `e..n-1` all
+    have the sign `+`. -/
+theorem inner_product_exponent_counts (a b : Tab) (e : Nat) (ga : (STab.ofTab a).Good) (gb : (STab.ofTab b).Good)
     (h : STab.innerProduct a b = .ok (some e)) :
-    e ≤ a.n ∧ ¬ Orth (STab.ofTab a) (STab.ofTab b) ∧ OverlapDim (STab.ofTab a) (STab.ofTab b) (a.n - e) ∧
-    ∃ s2, (STab.ofTab (b.runCircuit circ)).canonicalForm = .ok s2 ∧
+    ∃ s1 circ s2, (STab.ofTab a).inverseCircuit = .ok (s1, circ) ∧
+      (STab.ofTab (b.runCircuit circ)).canonicalForm = .ok s2 ∧
       (∀ i, i < a.n → (((List.range a.n).any fun j => (s2.row i).x j) = true ↔ i < e)) ∧
-      (∀ i, e ≤ i → i < a.n → (s2.row i).r = false) := by
-  obtain ⟨h1, h2, h3⟩ := innerProduct_some a b s1 circ (some e) ga gb hs hzero h e rfl
-  exact ⟨h1, h2, h3, innerProduct_some_rows a b s1 circ (some e) ga gb hs hzero h e rfl⟩
+      (∀ i, e ≤ i → i < a.n → (s2.row i).r = false) :=
+  (innerProduct_some_full a b (some e) ga gb h e rfl).2.2.2
 
 /-- the rank in `OverlapDim` is a property of the two groups: two independent generating sets of `A ∩ B` have the same size -/
 theorem overlap_dim_unique (A B : STab) (hg : A.Good) (hn : A.n = B.n) (d d2 : Nat)
     (h : OverlapDim A B d) (h2 : OverlapDim A B d2) : d = d2 := overlapDim_unique A B hg hn d d2 h h2
 
-/-- full statement (kept visible, **false on the current code**): the fidelity of a state with itself is 1 -/
+/-- the fidelity of a state with itself is 1 -/
 def fidelity_self_statement : Prop :=
   ∀ (a : Tab) (r : Option Nat), (STab.ofTab a).Good → STab.innerProduct a a = .ok r → r = some 0
 
-/-- **Fidelity of a state with itself is 1** (every n; partial: under `hzero`): if `inverse_circuit` returned on the
-    state and reached |0…0⟩, then `inner_product` of the state with itself returns, and returns 1.
-    Missing for `fidelity_self_statement`: `inverse_circuit` always reaches |0…0⟩ (false: `fidelity_self_statement_false`). -/
-theorem fidelity_self_partial (a : Tab) (s1 : STab) (circ : List Gate) (ga : (STab.ofTab a).Good)
+/-- **Fidelity of a state with itself is 1** (every n): whatever `inner_product` of a real commuting generating set with
+    itself returns is the value 1 … -/
+theorem fidelity_self : fidelity_self_statement :=
+  fun a r ga h => innerProduct_self_val a r ga h
+
+/-- … **and on a stabilizer state (independent generators) it does return**: `inner_product a a = 1`. -/
+theorem fidelity_self_returns (a : Tab) (ga : (STab.ofTab a).Good) (ia : (STab.ofTab a).Indep) :
+    STab.innerProduct a a = .ok (some 0) :=
+  innerProduct_self_full a ga ia
+
+/-- conditional form (hypothesis `hzero` explicit) -/
+theorem fidelity_self_of_zero (a : Tab) (s1 : STab) (circ : List Gate) (ga : (STab.ofTab a).Good)
     (hs : (STab.ofTab a).inverseCircuit = .ok (s1, circ)) (hzero : s1.isZero = true) :
     STab.innerProduct a a = .ok (some 0) :=
   innerProduct_self a s1 circ ga hs hzero
 
-/-- **`inner_product` returns on every pair of valid states** (every n; no hypothesis on the synthesis reaching |0…0⟩):
-    for two tableaux of the same size with real commuting stabilizer halves, if `inverse_circuit` returned on the first
-    and the final assert of `canonical_form` passes on the second (its generators are independent), no internal assert of
-    `inner_product` fails — the transformed second state again has `n` independent generators and no `−I`, so the
-    elimination in `canonical_form` finds `n` pivots. -/
-theorem inner_product_returns (a b : Tab) (s1 cb : STab) (circ : List Gate) (ga : (STab.ofTab a).Good)
-    (gb : (STab.ofTab b).Good) (hn : a.n = b.n) (hs : (STab.ofTab a).inverseCircuit = .ok (s1, circ))
-    (hcb : (STab.ofTab b).canonicalForm = .ok cb) : ∃ r, STab.innerProduct a b = .ok r :=
-  innerProduct_total a b s1 cb circ ga gb hn hs hcb
+/-- **`inner_product` returns on every pair of stabilizer states of the same size** (every n): for two tableaux of the
+    same size whose stabilizer halves are independent real commuting generating sets, no internal assert of
+    `inner_product`, `inverse_circuit` or `canonical_form` fails and no IndexError is raised. -/
+theorem inner_product_returns (a b : Tab) (ga : (STab.ofTab a).Good) (gb : (STab.ofTab b).Good)
+    (ia : (STab.ofTab a).Indep) (ib : (STab.ofTab b).Indep) (hn : a.n = b.n) : ∃ r, STab.innerProduct a b = .ok r :=
+  innerProduct_total_full a b ga gb ia ib hn
 
-/-- full statement (kept visible, **false on the current code**): fidelity 1 iff same state -/
+/-- … and it returns *only* on pairs of the same size whose first argument is an independent generating set -/
+theorem inner_product_returns_only_if (a b : Tab) (r : Option Nat) (ga : (STab.ofTab a).Good)
+    (h : STab.innerProduct a b = .ok r) : a.n = b.n ∧ (STab.ofTab a).Indep :=
+  innerProduct_ok_indep a b r ga h
+
+/-- fidelity 1 iff same state -/
 def fidelity_one_iff_statement : Prop :=
   ∀ (a b : Tab) (r : Option Nat), (STab.ofTab a).Good → (STab.ofTab b).Good → STab.innerProduct a b = .ok r →
     (r = some 0 ↔ ((STab.ofTab a).n = (STab.ofTab b).n ∧ ∀ p, (STab.ofTab a).Spn p ↔ (STab.ofTab b).Spn p))
 
-/-- **Fidelity 1 exactly for equal states** (every n; partial: under `hzero`): `inner_product` reports 1 **iff** the
-    two generating sets generate the same signed group. -/
-theorem fidelity_one_iff_partial (a b : Tab) (s1 : STab) (circ : List Gate) (r : Option Nat)
-    (ga : (STab.ofTab a).Good) (gb : (STab.ofTab b).Good)
-    (hs : (STab.ofTab a).inverseCircuit = .ok (s1, circ)) (hzero : s1.isZero = true)
-    (h : STab.innerProduct a b = .ok r) :
-    r = some 0 ↔ ((STab.ofTab a).n = (STab.ofTab b).n ∧ ∀ p, (STab.ofTab a).Spn p ↔ (STab.ofTab b).Spn p) := by
-  rw [innerProduct_one_iff a b s1 circ r ga gb hs hzero h]
+/-- **Fidelity 1 exactly for equal states** (every n): `inner_product` reports 1 **iff** the two generating sets generate
+    the same signed group. -/
+theorem fidelity_one_iff : fidelity_one_iff_statement := by
+  intro a b r ga gb h
+  rw [innerProduct_one_iff_full a b r ga gb h]
   exact ⟨fun s => ⟨s.n_eq, fun p => ⟨s.sub p, s.sup p⟩⟩, fun s => ⟨s.1, fun p => (s.2 p).1, fun p => (s.2 p).2⟩⟩
 
-/-- full statement (kept visible, **false on the current code**: D42 breaks it as soon as one of the two syntheses fails) -/
+/-- the two argument orders report the same value -/
 def fidelity_symmetric_statement : Prop :=
   ∀ (a b : Tab) (rab rba : Option Nat), (STab.ofTab a).Good → (STab.ofTab b).Good →
     STab.innerProduct a b = .ok rab → STab.innerProduct b a = .ok rba → rab = rba
 
-/-- **A zero result does not depend on the argument order** (every n; partial: when both syntheses reached |0…0⟩). -/
-theorem fidelity_symmetric_zero_partial (a b : Tab) (sa sb : STab) (ca cb : List Gate) (rab rba : Option Nat)
-    (ga : (STab.ofTab a).Good) (gb : (STab.ofTab b).Good)
-    (hsa : (STab.ofTab a).inverseCircuit = .ok (sa, ca)) (hza : sa.isZero = true)
-    (hsb : (STab.ofTab b).inverseCircuit = .ok (sb, cb)) (hzb : sb.isZero = true)
-    (hab : STab.innerProduct a b = .ok rab) (hba : STab.innerProduct b a = .ok rba) : rab = none ↔ rba = none := by
-  rw [innerProduct_none_iff a b sa ca rab ga gb hsa hza hab, innerProduct_none_iff b a sb cb rba gb ga hsb hzb hba]
-  exact orth_comm _ _
+/-- **The fidelity is symmetric** (every n): the two argument orders report the same value — `Orth` is symmetric, and
+    the rank of `A ∩ B` is symmetric and unique.  (Both calls return on stabilizer states: `inner_product_returns`.) -/
+theorem fidelity_symmetric : fidelity_symmetric_statement :=
+  fun a b rab rba ga gb hab hba => innerProduct_symm_full a b rab rba ga gb hab hba
 
-/-- **The fidelity is symmetric** (every n; partial: when both syntheses reached |0…0⟩): the two argument orders report
-    the same value — `Orth` is symmetric, and the rank of `A ∩ B` is symmetric and unique. -/
-theorem fidelity_symmetric_partial (a b : Tab) (sa sb : STab) (ca cb : List Gate) (rab rba : Option Nat)
-    (ga : (STab.ofTab a).Good) (gb : (STab.ofTab b).Good)
-    (hsa : (STab.ofTab a).inverseCircuit = .ok (sa, ca)) (hza : sa.isZero = true)
-    (hsb : (STab.ofTab b).inverseCircuit = .ok (sb, cb)) (hzb : sb.isZero = true)
-    (hab : STab.innerProduct a b = .ok rab) (hba : STab.innerProduct b a = .ok rba) : rab = rba :=
-  innerProduct_symm a b sa sb ca cb rab rba ga gb hsa hza hsb hzb hab hba
+/-- **The fidelity is a function of the two states, not of the generating sets or destabilizers** (every n): if `a`, `a'`
+    generate the same signed group and so do `b`, `b'`, then `inner_product a b` and `inner_product a' b'` report the
+    same value. -/
+theorem fidelity_presentation_independent (a a' b b' : Tab) (r r' : Option Nat)
+    (ga : (STab.ofTab a).Good) (gb : (STab.ofTab b).Good) (ga' : (STab.ofTab a').Good) (gb' : (STab.ofTab b').Good)
+    (sa : SpanEq (STab.ofTab a) (STab.ofTab a')) (sb : SpanEq (STab.ofTab b) (STab.ofTab b'))
+    (h : STab.innerProduct a b = .ok r) (h' : STab.innerProduct a' b' = .ok r') : r = r' :=
+  innerProduct_congr a a' b b' r r' ga gb ga' gb' sa sb h h'
+
+/-! ### The Hilbert-space reading: the reported value *is* the overlap of the two states
+
+  `Hilbert.rho n T = ∏_i (1 + P_i)/2` is the density matrix of the stabilizer tableau `T` (matrices over ℂ indexed by bit
+  strings; `pauliMat` is shown in C07 to be the Kronecker product graphiq builds).  For the stabilizer half of a valid
+  Clifford tableau it is a pure state (`C07.stabilizer_state_is_pure`: `ρ² = ρ = ρ†`, `tr ρ = 1`, `ρ ≥ 0`), so
+  `tr(ρ_a ρ_b) = |⟨a|b⟩|²`.  What was cited as textbook mathematics before (Aaronson–Gottesman; Garcia–Markov–Cross) is
+  now a theorem about the model. -/
+
+/-- **The fidelity is the overlap of the two states** (every n, every pair of real commuting generating sets, every
+    destabilizer half): if `inner_product` reports the value 0 then `tr(ρ_a ρ_b) = 0`, and if it reports `2^{-e/2}` then
+    `tr(ρ_a ρ_b) = 2^{-e}` — which is the number `abs(2**(-e/2))**2` that `fidelity` returns.
+    (`Hilbert.ipVal none = 0`, `Hilbert.ipVal (some e) = (1/2)^e`.) -/
+theorem fidelity_is_state_overlap (a b : Tab) (r : Option Nat) (ga : (STab.ofTab a).Good) (gb : (STab.ofTab b).Good)
+    (h : STab.innerProduct a b = .ok r) :
+    Matrix.trace (Hilbert.rho a.n (STab.ofTab a) * Hilbert.rho a.n (STab.ofTab b)) = Hilbert.ipVal r :=
+  Hilbert.innerProduct_trace a b r ga gb h
+
+/-- the same for valid Clifford tableaux (what the stabilizer backend holds): both density matrices are pure states -/
+theorem fidelity_is_state_overlap_of_valid (a b : Tab) (r : Option Nat) (va : a.Valid) (vb : b.Valid)
+    (h : STab.innerProduct a b = .ok r) :
+    Matrix.trace (Hilbert.rho a.n (STab.ofTab a) * Hilbert.rho a.n (STab.ofTab b)) = Hilbert.ipVal r ∧
+    Matrix.trace (Hilbert.rho a.n (STab.ofTab a)) = 1 ∧ Matrix.trace (Hilbert.rho b.n (STab.ofTab b)) = 1 :=
+  ⟨Hilbert.innerProduct_trace a b r (Hilbert.ofTab_good a va) (Hilbert.ofTab_good b vb) h,
+    Hilbert.rho_ofTab_trace a va, Hilbert.rho_ofTab_trace b vb⟩
+
+/-- **The fidelity is |⟨a|b⟩|²** (every n): for two stabilizer states (real commuting generators; the second one
+    independent, the first one is because `inner_product` returned) there are unit vectors `ψ_a`, `ψ_b` with
+    `ρ_a = |ψ_a⟩⟨ψ_a|`, `ρ_b = |ψ_b⟩⟨ψ_b|` — the states prepared from |0…0⟩ by the reversed synthesised circuits — and the
+    squared modulus of their inner product is exactly the value reported: `0` for `none`, `2^{-e}` for `some e`. -/
+theorem fidelity_is_squared_inner_product (a b : Tab) (r : Option Nat) (ga : (STab.ofTab a).Good)
+    (gb : (STab.ofTab b).Good) (ib : (STab.ofTab b).Indep) (h : STab.innerProduct a b = .ok r) :
+    ∃ ψa ψb : Hilbert.Bits a.n → ℂ,
+      (∑ x, star (ψa x) * ψa x = 1) ∧ (∑ x, star (ψb x) * ψb x = 1) ∧
+      (∀ x y, Hilbert.rho a.n (STab.ofTab a) x y = ψa x * star (ψa y)) ∧
+      (∀ x y, Hilbert.rho a.n (STab.ofTab b) x y = ψb x * star (ψb y)) ∧
+      (∑ x, star (ψa x) * ψb x) * star (∑ x, star (ψa x) * ψb x) = Hilbert.ipVal r := by
+  obtain ⟨hn, ia⟩ := innerProduct_ok_indep a b r ga h
+  obtain ⟨ta, ca, ha, _⟩ := inverseCircuit_complete _ ga ia
+  obtain ⟨tb, cb, hb, _⟩ := inverseCircuit_complete _ gb ib
+  obtain ⟨a1, a2⟩ := Hilbert.rho_rank_one _ ta ca ga ha
+  obtain ⟨b1, b2⟩ := Hilbert.rho_rank_one _ tb cb gb hb
+  have nb : (STab.ofTab b).n = a.n := hn.symm
+  rw [nb] at b1 b2
+  refine ⟨_, _, a2, b2, a1, b1, ?_⟩
+  exact (Hilbert.trace_rank_one _ _ _ _ a1 b1).symm.trans (Hilbert.innerProduct_trace a b r ga gb h)
+
+/-- **On valid Clifford tableaux — what the stabilizer backend holds — nothing is assumed** (every n): for two valid
+    tableaux of the same size `inner_product` returns; the fidelity of a tableau with itself is 1; and the reported value
+    is `|⟨ψ_a|ψ_b⟩|²` for unit vectors with `ρ_a = |ψ_a⟩⟨ψ_a|`, `ρ_b = |ψ_b⟩⟨ψ_b|`. -/
+theorem fidelity_on_valid_tableaux (a b : Tab) (va : a.Valid) (vb : b.Valid) (hn : a.n = b.n) :
+    STab.innerProduct a a = .ok (some 0) ∧
+    ∃ r, STab.innerProduct a b = .ok r ∧
+      ∃ ψa ψb : Hilbert.Bits a.n → ℂ,
+        (∑ x, star (ψa x) * ψa x = 1) ∧ (∑ x, star (ψb x) * ψb x = 1) ∧
+        (∀ x y, Hilbert.rho a.n (STab.ofTab a) x y = ψa x * star (ψa y)) ∧
+        (∀ x y, Hilbert.rho a.n (STab.ofTab b) x y = ψb x * star (ψb y)) ∧
+        (∑ x, star (ψa x) * ψb x) * star (∑ x, star (ψa x) * ψb x) = Hilbert.ipVal r := by
+  have ga := ofTab_good_of_valid a va
+  have gb := ofTab_good_of_valid b vb
+  have ia := ofTab_indep a va
+  have ib := ofTab_indep b vb
+  obtain ⟨r, hr⟩ := inner_product_returns a b ga gb ia ib hn
+  exact ⟨fidelity_self_returns a ga ia, r, hr, fidelity_is_squared_inner_product a b r ga gb ib hr⟩
 
 /-- **The executable specification is exact** (every n): the brute-force test `STab.orthB` (driver command `stab.overlap`,
     which the correspondence harness compares with the *real* `fidelity` on every pair with n ≤ 3) decides `Orth`, and the
     membership test behind its count `STab.commonCount` decides "this subset product of `a`'s rows lies in the group of
     `b`" — so the predicates the fidelity theorems speak about are themselves checked against the code's values.
-    (That the count equals `2^dim(A ∩ B)` for independent generators is the textbook `|A ∩ B| = 2^dim`; not proved.) -/
+    That the count equals `2^dim(A ∩ B)` is `overlap_spec_count_exact` below. -/
 theorem overlap_spec_checker_exact (a b : STab) (ga : a.Good) (gb : b.Good) (hn : a.n = b.n) :
     (a.orthB b = true ↔ Orth a b) ∧ ∀ ma, (a.commonB b ma = true ↔ b.Spn (mprod a.n a.row ma a.n)) :=
   ⟨orthB_iff a b ga gb hn, commonB_iff a b gb hn⟩
+
+/-- **… and its count is `2^dim(A ∩ B)`** (every n): for independent real commuting generators of `A` the number
+    `STab.commonCount` of subsets of `A`'s rows whose product lies in the group of `B` — the number the harness reads from
+    the driver and compares with the real fidelity — is `2^d` whenever `A ∩ B` has an independent generating set of `d`
+    elements (`|A ∩ B| = 2^dim`). -/
+theorem overlap_spec_count_exact (a b : STab) (ga : a.Good) (gb : b.Good) (ia : a.Indep) (hn : a.n = b.n) (d : Nat)
+    (h : OverlapDim a b d) : a.commonCount b = 2 ^ d :=
+  commonCount_eq a b ga gb ia hn d h
 
 /-! ### Non-vacuity -/
 def bellMinus : STab :=   -- generators −XX, ZZ in the gauge (−XX·ZZ = YY, ZZ):  YY, ZZ
@@ -379,7 +474,7 @@ example : ∃ s1 circ, (STab.ofTab bellPlusTab).Good ∧ (STab.ofTab bellMinusTa
     inverseCircuit_ok _ (by decide +kernel), by decide +kernel, by decide +kernel,
     ok_of_check _ _ (by decide +kernel), ok_of_check _ _ (by decide +kernel), ok_of_check _ _ (by decide +kernel)⟩
 
-/-- … and in the other argument order (hypotheses of `fidelity_symmetric_partial`) -/
+/-- … and in the other argument order (hypotheses of `fidelity_symmetric`) -/
 example : ∃ s1 circ, (STab.ofTab ket00Tab).inverseCircuit = .ok (s1, circ) ∧ s1.isZero = true ∧
     STab.innerProduct ket00Tab bellPlusTab = .ok (some 1) :=
   ⟨_, _, inverseCircuit_ok _ (by decide +kernel), by decide +kernel, ok_of_check _ _ (by decide +kernel)⟩
@@ -392,15 +487,82 @@ example : Orth (STab.ofTab bellPlusTab) (STab.ofTab bellMinusTab) ∧ OverlapDim
   have g1 : (STab.ofTab bellPlusTab).Good := good_of_check _ (by decide)
   have g2 : (STab.ofTab bellMinusTab).Good := good_of_check _ (by decide)
   have g3 : (STab.ofTab ket00Tab).Good := good_of_check _ (by decide)
-  exact ⟨(inner_product_zero_iff_partial _ _ _ _ _ g1 g2 hs hz (ok_of_check _ _ (by decide +kernel))).1 rfl,
-    (inner_product_exponent_partial _ _ _ _ 1 g1 g3 hs hz (ok_of_check _ _ (by decide +kernel))).2.2.1⟩
+  exact ⟨(inner_product_zero_iff _ _ _ g1 g2 (ok_of_check _ _ (by decide +kernel))).1 rfl,
+    (inner_product_exponent _ _ 1 g1 g3 (ok_of_check _ _ (by decide +kernel))).2.2⟩
 
-/-- the hypotheses of `inner_product_returns` (second argument: `canonical_form` returns) and of
-    `overlap_spec_checker_exact`, which here evaluates to: orthogonal, two common elements with |00⟩ -/
-example : (∃ cb, (STab.ofTab bellMinusTab).canonicalForm = .ok cb) ∧
-    (STab.ofTab bellPlusTab).orthB (STab.ofTab bellMinusTab) = true ∧
+/-- the hypotheses of `inner_product_returns` / `fidelity_self_returns`: Φ⁺, Φ⁻ and |00⟩ are independent generating sets —
+    derived (`inner_product_returns_only_if`) from the fact that `inner_product` returns on them, not assumed -/
+theorem bell_indep : (STab.ofTab bellPlusTab).Indep ∧ (STab.ofTab bellMinusTab).Indep ∧ (STab.ofTab ket00Tab).Indep :=
+  ⟨(inner_product_returns_only_if bellPlusTab bellPlusTab _ (good_of_check _ (by decide)) (ok_of_check _ (some 0) (by decide +kernel))).2,
+   (inner_product_returns_only_if bellMinusTab bellMinusTab _ (good_of_check _ (by decide)) (ok_of_check _ (some 0) (by decide +kernel))).2,
+   (inner_product_returns_only_if ket00Tab ket00Tab _ (good_of_check _ (by decide)) (ok_of_check _ (some 0) (by decide +kernel))).2⟩
+
+example : ∃ r, STab.innerProduct bellPlusTab ket00Tab = .ok r :=
+  inner_product_returns _ _ (good_of_check _ (by decide)) (good_of_check _ (by decide)) bell_indep.1 bell_indep.2.2 rfl
+
+/-- the hypotheses of `fidelity_is_state_overlap_of_valid` are met by Φ⁺ and |00⟩ (valid Clifford tableaux); the theorem
+    gives `tr(ρ_{Φ⁺} ρ_{00}) = 1/2` and `tr(ρ_{Φ⁺} ρ_{Φ⁻}) = 0` -/
+example : bellPlusTab.Valid ∧ ket00Tab.Valid ∧
+    Matrix.trace (Hilbert.rho 2 (STab.ofTab bellPlusTab) * Hilbert.rho 2 (STab.ofTab ket00Tab)) = 1 / 2 ∧
+    Matrix.trace (Hilbert.rho 2 (STab.ofTab bellPlusTab) * Hilbert.rho 2 (STab.ofTab bellMinusTab)) = 0 := by
+  have v1 : bellPlusTab.Valid := (Tab.isSymplectic_iff _).1 (by decide)
+  have v2 : ket00Tab.Valid := (Tab.isSymplectic_iff _).1 (by decide)
+  have v3 : bellMinusTab.Valid := (Tab.isSymplectic_iff _).1 (by decide)
+  refine ⟨v1, v2, ?_, ?_⟩
+  · have h := (fidelity_is_state_overlap_of_valid bellPlusTab ket00Tab (some 1) v1 v2 (ok_of_check _ _ (by decide +kernel))).1
+    have e : Hilbert.ipVal (some 1) = 1 / 2 := by simp [Hilbert.ipVal]
+    rw [e] at h; exact h
+  · exact (fidelity_is_state_overlap_of_valid bellPlusTab bellMinusTab none v1 v3 (ok_of_check _ _ (by decide +kernel))).1
+
+/-- the hypotheses of `fidelity_on_valid_tableaux` are met by Φ⁺ and |00⟩ -/
+example : bellPlusTab.Valid ∧ ket00Tab.Valid ∧ bellPlusTab.n = ket00Tab.n :=
+  ⟨(Tab.isSymplectic_iff _).1 (by decide), (Tab.isSymplectic_iff _).1 (by decide), rfl⟩
+
+/-- the hypotheses of `overlap_spec_count_exact` are met by Φ⁺ against |00⟩ (rank 1 from `inner_product_exponent`): the
+    theorem gives the count `2^1`, which is what the executable specification evaluates to -/
+example : (STab.ofTab bellPlusTab).commonCount (STab.ofTab ket00Tab) = 2 ^ 1 := by
+  have g1 : (STab.ofTab bellPlusTab).Good := good_of_check _ (by decide)
+  have g3 : (STab.ofTab ket00Tab).Good := good_of_check _ (by decide)
+  have hd : OverlapDim (STab.ofTab bellPlusTab) (STab.ofTab ket00Tab) 1 :=
+    (inner_product_exponent bellPlusTab ket00Tab 1 g1 g3 (ok_of_check _ _ (by decide +kernel))).2.2
+  exact overlap_spec_count_exact (STab.ofTab bellPlusTab) (STab.ofTab ket00Tab) g1 g3 bell_indep.1 rfl 1 hd
+
+/-- `overlap_spec_checker_exact` here evaluates to: orthogonal, two common elements with |00⟩ -/
+example : (STab.ofTab bellPlusTab).orthB (STab.ofTab bellMinusTab) = true ∧
     (STab.ofTab bellPlusTab).commonCount (STab.ofTab ket00Tab) = 2 :=
-  ⟨⟨_, canonicalForm_ok _ (by decide)⟩, by decide +kernel, by decide +kernel⟩
+  ⟨by decide +kernel, by decide +kernel⟩
+
+/-- Φ⁻ in the other gauge `YY, ZZ`, with other destabilizers -/
+def bellMinusYYTab : Tab := Tab.ofRows 2 #[PRow.Xq 0, PRow.Zq 1,
+    PRow.ofArrays #[true,true] #[true,true] false false,
+    PRow.ofArrays #[false,false] #[true,true] false false]
+
+/-- the hypotheses of `fidelity_presentation_independent` are met by two different presentations of Φ⁻ (against |00⟩);
+    both calls return the same value, as the theorem says -/
+example : ∃ r r', (STab.ofTab bellMinusTab).Good ∧ (STab.ofTab bellMinusYYTab).Good ∧
+    SpanEq (STab.ofTab bellMinusTab) (STab.ofTab bellMinusYYTab) ∧
+    STab.innerProduct bellMinusTab ket00Tab = .ok r ∧ STab.innerProduct bellMinusYYTab ket00Tab = .ok r' ∧ r = r' := by
+  have g1 : (STab.ofTab bellMinusTab).Good := good_of_check _ (by decide)
+  have g2 : (STab.ofTab bellMinusYYTab).Good := good_of_check _ (by decide)
+  have g3 : (STab.ofTab ket00Tab).Good := good_of_check _ (by decide)
+  have s : SpanEq (STab.ofTab bellMinusTab) (STab.ofTab bellMinusYYTab) := by
+    apply spanEq_of_gens (STab.ofTab bellMinusTab) (STab.ofTab bellMinusYYTab) rfl
+    · intro i hi
+      have : i = 0 ∨ i = 1 := by have : i < 2 := hi; omega
+      rcases this with rfl | rfl
+      · exact InSpan.eqv _ _ (InSpan.mul _ _ (spn_gen (STab.ofTab bellMinusTab) 0 (by decide))
+          (spn_gen (STab.ofTab bellMinusTab) 1 (by decide))) (beqOn_eqOn _ _ _ (by decide))
+      · exact InSpan.eqv _ _ (spn_gen (STab.ofTab bellMinusTab) 1 (by decide)) (beqOn_eqOn _ _ _ (by decide))
+    · intro i hi
+      have : i = 0 ∨ i = 1 := by have : i < 2 := hi; omega
+      rcases this with rfl | rfl
+      · exact InSpan.eqv _ _ (InSpan.mul _ _ (spn_gen (STab.ofTab bellMinusYYTab) 0 (by decide))
+          (spn_gen (STab.ofTab bellMinusYYTab) 1 (by decide))) (beqOn_eqOn _ _ _ (by decide))
+      · exact InSpan.eqv _ _ (spn_gen (STab.ofTab bellMinusYYTab) 1 (by decide)) (beqOn_eqOn _ _ _ (by decide))
+  have h1 : STab.innerProduct bellMinusTab ket00Tab = .ok (some 1) := ok_of_check _ _ (by decide +kernel)
+  have h2 : STab.innerProduct bellMinusYYTab ket00Tab = .ok (some 1) := ok_of_check _ _ (by decide +kernel)
+  exact ⟨_, _, g1, g2, s, h1, h2,
+    fidelity_presentation_independent _ _ _ _ _ _ g1 g3 g2 g3 s (SpanEq.refl _) h1 h2⟩
 
 /-- the witness of the repaired defect D42 (`C11.d42`: −XIYXI, −IXXZZ, IIZZX, −ZIIZI, IZZZI) as a Clifford tableau
     (the destabilizer half is not read by `inner_product` on its first argument) -/
